@@ -1,4 +1,38 @@
-/- driver operations of C14 (stub: no model yet) -/
+import EvoModel.Model.Project
 namespace Evo.Drv.C14
-def handle (_op : String) (_args : List String) : Option String := none
+open Evo Evo.Project
+
+def plane? : String → Option Plane
+  | "xy" => some .xy | "xz" => some .xz | "yz" => some .yz | _ => none
+
+def showB (b : Bool) : String := if b then "1" else "0"
+
+/-- ops:
+  `proj plane pose`        → `tx ty tz xsq xneg y gimbal margin`  (zeroed position, Euler direction, branch)
+  `unit plane pose c s`    → `isUnit fixed` (exact: is (c, s) the normalised direction; is the pose unchanged)
+  `hist n plane…`          → `OK`/`REFUSED` per call of `project` on one object -/
+def handle (op : String) (args : List String) : Option String :=
+  match op, args with
+  | "proj", pl :: rest => do
+      let pl ← plane? pl
+      let rs ← parseRats? rest
+      let p ← Pose.ofList rs
+      let d := dirOf epsSqRat pl p.rot
+      let t := zeroNormal pl p.t
+      some s!"{showRats t.toList} {showRat d.xsq} {showB d.xneg} {showRat d.y} {showB d.gimbal} {showRat (gimbalMargin p.rot)}"
+  | "unit", pl :: rest => do
+      let pl ← plane? pl
+      let rs ← parseRats? rest
+      let p ← Pose.ofList (rs.take 12)
+      match rs.drop 12 with
+      | [c, s] =>
+          let d := dirOf epsSqRat pl p.rot
+          some s!"{showB (decide (d.IsUnit c s))} {showB (decide (projectPose pl p c s = p))}"
+      | _ => none
+  | "hist", _ :: pls => do
+      let pls ← pls.mapM plane?
+      let tr : Traj Rat := ⟨[0], [Pose.one], false⟩
+      some (" ".intercalate ((history tr pls).map fun b => if b then "OK" else "REFUSED"))
+  | _, _ => none
+
 end Evo.Drv.C14
